@@ -168,6 +168,8 @@ struct SimFile {
   int kind = 0;
   bool written = false;  // created/truncated by fopen during the run
   long fopen_count = 0;
+  int lock_excl = -1;    // flock: descriptor holding the exclusive lock
+  int lock_shared = 0;   // flock: number of descriptors holding a shared lock
 };
 SimFile *file_lookup(const std::string &path);
 const std::vector<SimFile> &files();
